@@ -550,6 +550,7 @@ def run(tier):
     rule_R14(res, prog)
     rule_R15(res, prog)
     rule_R16(res, prog)
+    rule_R17(res, prog)
     return res.finish()
 
 
@@ -1147,3 +1148,48 @@ def rule_R16(res, prog):
                              file=fn.relfile, line=ln)
             res.instance(rid, "%s:%s %s reset before the append loop" % (fn.name, ln, txt), esc is None, finding=f_)
     res.floor(rid, 2)
+
+
+def rule_R17(res, prog):
+    """'any in-transit change to the hello messages makes the handshake fail', HelloRetryRequest case: ClientHello1 stays in
+    the transcript as message_hash = Hash(ClientHello1).  In tls13TranscriptHashReinit the running hash is finished into the
+    ClientHello1 snapshot BEFORE the hash contexts are initialised again: no path leads from the tls13TranscriptHashInit call
+    to the tls13TranscriptHashFinish call.  The other order snapshots Hash("") on both sides - peers built from the same tree
+    still agree, and a rewritten ClientHello1 (key share groups!) goes unnoticed."""
+    from sa import cfgutil as cu
+    rid = "C07.R17"
+    res.rule(rid, "HelloRetryRequest: Hash(ClientHello1) is taken before the transcript hash is re-initialised")
+    lst = prog.by_name.get("tls13TranscriptHashReinit")
+    if not lst:
+        if prog.defined("USE_TLS_1_3"):
+            raise AnalysisBroken("C07.R17: tls13TranscriptHashReinit vanished")
+        res.floor(rid, 0)
+        return
+    fn = lst[0]
+    inits = cu.find_sites(fn, lambda m: m.get("k") == "call" and m.get("fn") == "tls13TranscriptHashInit")
+    fins = cu.find_sites(fn, lambda m: m.get("k") == "call" and m.get("fn") == "tls13TranscriptHashFinish")
+    if not inits or not fins:
+        raise AnalysisBroken("C07.R17: tls13TranscriptHashReinit no longer calls tls13TranscriptHashFinish / tls13TranscriptHashInit")
+    n = 0
+    for (fb, fi, fln, fnode) in fins:
+        n += 1
+        bad = None
+        for (ib, ii, iln, inode) in inits:
+            esc = cu.escapes(fn, (ib, ii), lambda x: False, target_expr=lambda x, fnode=fnode: any(m is fnode for m in walk(x)))
+            if esc is not None:
+                bad = iln
+        # and the snapshot is taken at all before the re-initialisation: every path from the entry to an Init call passes a Finish call
+        for (ib, ii, iln, inode) in inits:
+            esc = cu.escapes(fn, (fn.entry, None), lambda x: any(m.get("k") == "call" and m.get("fn") == "tls13TranscriptHashFinish" for m in walk(x)),
+                             target_expr=lambda x, inode=inode: any(m is inode for m in walk(x)))
+            if esc is not None:
+                bad = iln
+        f_ = None
+        if bad is not None:
+            f_ = Finding(PROP, rid, fn.name, "transcript hash re-initialised before Hash(ClientHello1) was taken",
+                         "%s:%s tls13TranscriptHashReinit(): tls13TranscriptHashInit (line %s) runs before tls13TranscriptHashFinish has stored "
+                         "Hash(ClientHello1): the message_hash that stands for ClientHello1 after a HelloRetryRequest becomes Hash(\"\") on "
+                         "both sides, ClientHello1 drops out of the transcript and an attacker can rewrite it (e.g. its key share groups) "
+                         "unnoticed" % (fn.relfile, fln, bad), file=fn.relfile, line=fln)
+        res.instance(rid, "tls13TranscriptHashReinit:%s snapshot of Hash(ClientHello1) precedes the re-initialisation" % fln, bad is None, finding=f_)
+    res.floor(rid, 1)
